@@ -160,6 +160,9 @@ func (s *fsm12) prepare(ctx context.Context, conn Conn) (State, error) {
 }
 
 func (s *fsm12) send(ctx context.Context, c Conn) (State, error) {
+	if vtrace.Enabled {
+		vtrace.Gate(s.cfg, "fsm.beforeSend")
+	}
 	// Send flights
 	if _, err := c.WritePackets(ctx, s.flights); err != nil {
 		return StateErrored, err
@@ -209,6 +212,7 @@ func (s *fsm12) wait(ctx context.Context, conn Conn) (State, error) { //nolint:g
 				vtrace.Emit(s.cfg, "fsm.parsed", "client", s.state.IsClient, "flight", s.currentFlight.String(),
 					"next", nextFlight.String(), "alert", dtlsAlert != nil, "err", err != nil,
 					"interval", int64(s.retransmitInterval), "retransmit", s.retransmit)
+				vtrace.Gate(s.cfg, "fsm.afterParse")
 			}
 			close(state.Done)
 			if dtlsAlert != nil {
